@@ -26,6 +26,8 @@ Fr = Fraction
 B30 = D.B30
 B40 = Fraction(1, 2**40)
 NAMES = ["x", "y", "z", "u", "ab", "x_1", "xy", "w", "v2"]
+OUT_MODES = ("none", "new", "alias")
+OUT_MODES_WEIGHTED = ["none", "none", "new", "new", "alias", "alias", "alias"]
 
 # --------------------------------------------------------------------------- stand-alone marginals
 
@@ -237,6 +239,8 @@ def gen_query(rng) -> dict:
         q["use_dist"] = rng.chance(0.7)
         q["rows"] = rng.pick([0, 0, 1, 2, 3])  # 0 = 1-D input
         q["api"] = rng.pick(["normalize", "transform"]) if (q["use_dist"] and q["minus_lb"]) else "normalize"
+        # the `out` argument: absent, a distinct buffer, or the input array itself (in-place call)
+        q["out"] = rng.pick(OUT_MODES_WEIGHTED)
     if kind == "ecdf":
         q["inverse"] = rng.chance(0.5)
     if kind == "samples":
